@@ -139,12 +139,15 @@ def run(chk):
             chk.tie_broken("impl/regrid.py", f"history {hi} did not run: {err}")
             continue
         cur, partial, crz, other, refused, since_geo = "D", False, True, None, False, "build"
+        limbo = False
         for op, r in zip(hist, res):
             if op["op"] == "redistribute":
                 if op.get("expect_refusal"):
                     # whether it is refused or not, what follows is judged against fresh builds of the settings given AFTERWARDS; if it is accepted it becomes current
                     if r["ok"]:
                         cur, partial, crz, other = op["key"], False, False, None
+                    else:
+                        limbo = True     # refused part-way: until settings are accepted again there are no 'final settings' to compare with
                     continue
                 if not r["ok"]:
                     if op.get("other"):
@@ -154,9 +157,12 @@ def run(chk):
                     break
                 cur, partial, crz, other = op["key"], bool(op.get("partial")), False, op.get("other")
                 since_geo = "redistribute"
+                limbo = False
             elif op["op"] == "calculateRZ":
                 crz = True
                 since_geo = since_geo + "+calculateRZ" if "calculateRZ" not in since_geo else since_geo
+            elif limbo and op["op"] in ("geometry", "observe"):
+                continue
             elif op["op"] == "geometry":
                 if not r["ok"]:
                     chk.fail(f"geometry-raises:after-{since_geo}", "geometry() raised in a regridding history", {"family": fam, "history": hist[:hist.index(op) + 1], "step": r["op"], "error": r["error"]})
